@@ -98,6 +98,9 @@ CHECKS = {
         'read, those of styles.xml are; what load() returns always has its eight sections in the general form (C05_loaded_shape), and '
         'saving it gives parts that parse back to it normalised - C05_resave_any, with no condition on the source: a pretty-printed '
         'source, whose white space between the children of a section is kept by load(), is covered (general round trip of C04). '
+        'Between the package and the parser load() patches every XML member textually (missing prefix declarations): for every string the '
+        'patch changes the start tag of the root element only (C05_only_root_tag_patched; model FixPart tied to __fixXmlPart, '
+        '__endOfDoctype, __rootStartTag by correspondence, the extent of the tag compared with what expat reports). '
         'Not proved: the package level (other members, media types: C03/C16 theorems and the oracle). Tied by correspondence of xml_parse + load_doc '
         'with load() on every sample document of the repository, ten structure-preserving mutations of each and synthetic packages, '
         'and judged by an independent source-vs-saved comparison (zipfile + expat).',
